@@ -24,4 +24,30 @@ structure Principal where
   token : JwtToken := {}
 deriving Inhabited
 
+/-- query parameters of POST /bids/deny and /bids/allow after go-openapi's binding -/
+structure BidExpParams where
+  Bid : String := ""
+  Exp : Int := 0
+deriving Inhabited
+
+structure NoParams where
+  mk ::
+deriving Inhabited
+
+/-- a go-openapi responder: status code and payload -/
+inductive Resp where
+  | status (code : Nat)
+  | error (code : Nat) (c m : String)            -- models.Error{Code, Message}
+  | ids (code : Nat) (l : List String)           -- models.BookingIDs
+deriving Inhabited, DecidableEq, Repr
+
+def Resp.code : Resp → Nat
+  | .status c | .error c _ _ | .ids c _ => c
+
+/-- `err.Error()` (only evaluated where `err != nil` was tested) -/
+def errStr (e : Error) : String := e.getD ""
+
+/-- `strconv.Itoa(int(x))` -/
+def itoa (x : Int) : String := toString x
+
 end Go
